@@ -336,8 +336,22 @@ package mocker
 //@   panics_only_if rejected: true
 //@   ensures_on_panic rejected_configuration_leaves_unmocked_targets_alone: patch.panic_frame()
 
-// argument conditions: each given value / expression is resolved against its own parameter type (ToExpr); trusted here,
-// its matching behaviour is DefaultMatcher.Match's contract (C04)
+// the declared parameter types a condition is resolved against (receiver skipped for methods)
+//@ func inTypes
+//@   props C04 C09 C13
+//@   requires type: funTyp != nil && rt_kind(funTyp) == reflect.Func
+//@   assume methods_have_a_receiver: isMethod ==> rt_numin(funTyp) >= 1
+//@   assigns nothing
+//@   invariant loop 1 filled: 0 <= i && i <= numIn - skip && numIn == rt_numin(funTyp) && (skip == 0 || skip == 1) && skip == ite(isMethod, int(1), int(0)) && len(typeList) == numIn - skip && fresh(typeList)
+//@     | && funTyp != nil && rt_kind(funTyp) == reflect.Func && (forall j int :: 0 <= j && j < i ==> typeList[j] == rt_in(funTyp, j + skip) && typeList[j] != nil)
+//@   decreases loop 1 numIn - skip - i
+//@   ensures declared_parameter_types: len(result0) == rt_numin(funTyp) - ite(isMethod, int(1), int(0)) && 0 <= len(result0) && len(result0) < 0x10000 && fresh(result0) && result1 == rt_variadic(funTyp)
+//@     | && forall j int :: 0 <= j && j < len(result0) ==> result0[j] == rt_in(funTyp, j + ite(isMethod, int(1), int(0))) && result0[j] != nil
+
+// argument conditions: one expression per configured argument (arg.ToExpr, verified), each resolved against its own
+// parameter type; the constructor itself stays TRUSTED (un-trusting it was tried: it discharges, but it widens the frame
+// of every builder by the expressions' fields, which was not propagated); what the expressions then accept is
+// DefaultMatcher.Match's contract (C04)
 //@ trusted func newDefaultMatch
 //@   props C04
 //@   assigns varval
